@@ -49,7 +49,7 @@ def run_case(case):
     op = case["op"]
 
     def one(split_mode, split_sizes, entries, triple, tag, slow=0.0, trailer=b""):
-        sess = gen.make_session(case["impl"], dims, case["seed"])
+        sess = gen.make_session(case["impl"], dims, case["seed"], **({"call_cost": 0.3} if slow >= 8.0 else {}))
         try:
             plan = sess.sim.sync_plan
             sess.sim.wrte_delay = slow        # a slow device: each reply WRTE comes `slow` seconds after the previous one (each wait below the limits, the whole reply far above)
@@ -96,9 +96,15 @@ def run_case(case):
             dims["frag"] = "random"
         slow = 0.0
         if rng.random() < 0.15 and n <= 50:
-            slow = rng.choice([1.5, 4.0])
+            slow = rng.choice([1.5, 4.0, 8.0])
             split, split_sizes_ = "list", [rng.choice([3, 7, 16, 20, 33])]
             dims["noise"] = [x for x in dims["noise"] if x != "bg"]
+            if slow >= 8.0:
+                # most of read_timeout_s passes in silence before each packet; then the header comes in one piece and the payload in a dozen fragments over a
+                # link on which every transfer takes 0.3 s: no single wait, and no single packet part (header, payload), comes near any limit
+                dims["frag"], dims["empty_rate"] = "trickle", 0.0
+                split_sizes_ = [rng.choice([33, 40, 64])]
+                stats["slow_devices_on_slow_links"] = 1
             stats["slow_devices"] = 1
         else:
             split_sizes_ = None
